@@ -215,9 +215,12 @@ def run(ck):
         jobs += [(buggy, (pg,)) for pg in (3, 4)]
     else:
         for j, pg in enumerate(pages_list + [7, 12, 16]):
-            jobs.append((cover, (pg, P, 0, 0, pg <= 8, True, "p%d_exact" % pg)))
-            cls = 1 + (s + j) % 3
-            jobs.append((cover, (pg, P, cls, (s + j) % 2, False, False, "p%d_r%d" % (pg, cls))))
+            # up to 8 pages: all amounts 0..size+1, replayed as generated and with perturbed amounts;
+            # 12 and 16 pages (long shortest paths, 10^5 histories each): the seven amounts, as generated
+            jobs.append((cover, (pg, P, 0, 0, pg <= 8, pg <= 8, "p%d_exact" % pg)))
+            if pg <= 8:
+                cls = 1 + (s + j) % 3
+                jobs.append((cover, (pg, P, cls, (s + j) % 2, False, False, "p%d_r%d" % (pg, cls))))
         for pg in (1, 2, 3):
             # finer unit: 16 units per page (256 bytes)
             jobs.append((cover, (pg, 16, 0, 1, False, True, "p%d_u16" % pg)))
